@@ -367,6 +367,8 @@ class Interp:
     def try_equals(self, a: Value, b: Value) -> Optional[bool]:
         if a is b:
             return True
+        if (isinstance(a, Unknown) and a.meta.get("sentinel")) or (isinstance(b, Unknown) and b.meta.get("sentinel")):
+            return False        # a bare object() equals nothing but itself
         if isinstance(a, ListV) and a.absorbed is not None:
             a = a.absorbed
         if isinstance(b, ListV) and b.absorbed is not None:
@@ -496,8 +498,35 @@ class Interp:
             key = (mod, ast.dump(expr)[:200] + str(getattr(expr, "lineno", 0)))
             if key not in self.run.const_cache:
                 self.run.const_cache[key] = self.eval(expr, Frame(mod, None, {}))
+                self._import_time_mutations(mod, expr)
             return self.run.const_cache[key]
         raise AnalysisError(f"resolve kind {kind}")
+
+    def _import_time_mutations(self, mod: str, expr: ast.expr) -> None:
+        """module-level statements that act on the object a module constant was just bound to - `REGISTRY.register(...)`,
+        `TABLE[k] = v`, `NAMES.append(x)` written below its definition - run once, in order, as the import does"""
+        m = self.p.modules.get(mod)
+        if m is None:
+            return
+        names = [n for n, e in m.consts.items() if e is expr]
+        if not names:
+            return
+        name = names[0]
+        for st in m.tree.body:
+            if getattr(st, "lineno", 0) <= getattr(expr, "lineno", 0):
+                continue
+            acts = False
+            if isinstance(st, ast.Expr) and isinstance(st.value, ast.Call) and isinstance(st.value.func, ast.Attribute) and \
+                    isinstance(st.value.func.value, ast.Name) and st.value.func.value.id == name:
+                acts = True
+            if isinstance(st, ast.Assign) and any(isinstance(t, ast.Subscript) and isinstance(t.value, ast.Name) and t.value.id == name
+                                                  for t in st.targets):
+                acts = True
+            if isinstance(st, ast.AugAssign) and isinstance(st.target, ast.Name) and st.target.id == name:
+                raise self.unsupported(f"module constant {name} rebound by an augmented assignment", st, None)
+            if acts:
+                self.exec_block([st], Frame(mod, None, {}))
+
 
     # ------------------------------------------------------------------ calling
     def call_value(self, f: Value, args: List[Value], kwargs: Dict[str, Value], node: Optional[ast.AST],
